@@ -335,11 +335,15 @@ theorem get_kid_applyKidI (l : Logical) (e : Bytes × List (Bytes × Bytes) × L
       if ck = e.1 then
         (if k ∈ e.2.2 then none else ov (KMap.find k e.2.1) (OMap.get k (kidOf l ck)))
       else OMap.get k (kidOf l ck) := by
-  rw [applyKidI_eq, kid_foldl_clear, kid_foldl_put]
+  rw [applyKidI_eq, kid_foldl_clear]
   by_cases h : ck = e.1
   · simp only [h, if_true]
+    rw [kid_foldl_put]
+    simp only [if_true]
     rw [get_foldl_erase, get_foldl_upsert _ hn]
-  · simp [h]
+  · simp only [h, if_false]
+    rw [kid_foldl_put]
+    simp [h]
 
 theorem phase2_wf (ks : List (Bytes × List (Bytes × Bytes) × List Bytes)) {l : Logical} (h : l.WF) :
     (ks.foldl applyKidI l).WF := by
